@@ -1,9 +1,10 @@
 SPECIFICATION Spec
 CONSTANTS
   Threads = {"t1", "t2", "t3", "t4"}
-  Keys = {"a", "b"}
+  Keys = {"a", "b", "c"}
   MaxLoads = 3
   TTL = 1
   GenCheck = TRUE
+  Locked = FALSE
   Export = TRUE
 INVARIANTS Emit
